@@ -295,5 +295,232 @@ theorem exec_classical (np n nc : Nat) (det : Bool) (st : Noise.DmSt) (h : HStat
     simp only [Noise.dmGate, hm, ep, e1, e2, e3]
     rfl
 
+/-! ### the compile loop -/
+
+/-- the noise-free `for op in seq` loop of the executable model: a fold of `dmGate` -/
+def dmFoldX (np n : Nat) (det : Bool) : List Noise.COp → Noise.DmSt → Except Err Noise.DmSt
+  | [], s => .ok s
+  | op :: rest, s =>
+    match Noise.dmGate np n det op s with
+    | .ok s' => dmFoldX np n det rest s'
+    | .error e => .error e
+
+theorem dmFoldX_append (np n : Nat) (det : Bool) (a b : List Noise.COp) (s s' : Noise.DmSt)
+    (h : dmFoldX np n det a s = .ok s') : dmFoldX np n det (a ++ b) s = dmFoldX np n det b s' := by
+  induction a generalizing s with
+  | nil => simp only [dmFoldX] at h; injection h with h; subst h; rfl
+  | cons op rest ih =>
+    simp only [List.cons_append, dmFoldX] at h ⊢
+    cases h1 : Noise.dmGate np n det op s with
+    | error e => rw [h1] at h; cases h
+    | ok s1 => rw [h1] at h; simp only at h ⊢; exact ih s1 h
+
+theorem placeOp_off' (np : Nat) (op : Noise.COp) (k : Nat) : Noise.placeOp false .dm np op k = .ok [.gate k] := by
+  unfold Noise.placeOp
+  simp
+
+/-- with noise simulation off, `compileDM`'s loop is the fold of `dmGate` -/
+theorem dmGo_off (np n : Nat) (det : Bool) (arr : Array Noise.COp) :
+    ∀ (rest : List Noise.COp) (k : Nat) (s : Noise.DmSt),
+      (∀ i (hi : i < rest.length), arr.getD (k + i) { kind := .identity } = rest[i]) →
+      Noise.dmGo false np n det arr rest k s = dmFoldX np n det rest s := by
+  intro rest
+  induction rest with
+  | nil => intro k s _; rfl
+  | cons op rest ih =>
+    intro k s harr
+    have h0 : arr.getD k { kind := .identity } = op := by
+      have := harr 0 (by simp)
+      simpa using this
+    simp only [Noise.dmGo, placeOp_off', Noise.runDmActs, Noise.dmAct, h0, dmFoldX]
+    cases h1 : Noise.dmGate np n det op s with
+    | error e => rfl
+    | ok s1 =>
+      simp only
+      apply ih
+      intro i hi
+      have := harr (i + 1) (by simp; omega)
+      simp only [List.getElem_cons_succ] at this
+      rw [← this]
+      congr 1
+      omega
+
+theorem exec_gen1_list (np n nc : Nat) (det : Bool) (r1 : Nat) (t1 : Noise.RegT) (hq : Noise.qIndex np r1 t1 < n)
+    (gs : List Cliff.Gen) :
+    ∀ (st : Noise.DmSt) (h : HState n), RepSt n nc st h →
+      ∃ st', dmFoldX np n det (gs.map fun g => { kind := kindOfGen g, r1 := r1, t1 := t1 }) st = .ok st' ∧
+        RepSt n nc st' { h with ρ := gs.foldl (fun ρ g => gen1H n ρ g (Noise.qIndex np r1 t1)) h.ρ } := by
+  induction gs with
+  | nil => intro st h hst; exact ⟨st, rfl, hst⟩
+  | cons g rest ih =>
+    intro st h hst
+    obtain ⟨st1, e1, r1'⟩ := exec_gen1 np n nc det st h hst g r1 t1 hq
+    obtain ⟨st2, e2, r2⟩ := ih st1 _ r1'
+    refine ⟨st2, ?_, r2⟩
+    simp only [List.map_cons, dmFoldX, e1]
+    exact e2
+
+/-- **One circuit operation**: the executable model's steps for the translated operation take a state representing
+    `ρ(s.t)` (with the registers of `s`) to one representing `ρ(s'.t)` (with the registers of `s'`). -/
+theorem exec_op (np n nc : Nat) (det : Bool) (s s' : RunState) (op : Graphiq.COp) (hwf : op.WF np) (hinv : RunInv n s)
+    (hs : stepOp np n (detOf det) s op = some s') (st : Noise.DmSt) (hst : RepSt n nc st (hstate n s)) :
+    ∃ st', dmFoldX np n det (trOp op) st = .ok st' ∧ RepSt n nc st' (hstate n s') := by
+  have hH := dmStepH_stab np n (detOf det) s s' op hwf hinv hs
+  obtain ⟨hv, hn, hr⟩ := hinv
+  have hpos : ∀ q, q < n → 0 < measNormH (hstate n s).ρ (projZ n q false) (projZ n q true) (detOf det) (hstate n s).script := by
+    intro q hq
+    subst hn
+    exact measNormH_pos_tab s hv hr (detOf det) q hq
+  have one : ∀ (o : Noise.COp) (h' : HState n),
+      (∃ st', Noise.dmGate np n det o st = .ok st' ∧ RepSt n nc st' h') → some h' = some (hstate n s') →
+      ∃ st', dmFoldX np n det [o] st = .ok st' ∧ RepSt n nc st' (hstate n s') := by
+    intro o h' ⟨st', e, r⟩ heq
+    injection heq with heq
+    refine ⟨st', ?_, heq ▸ r⟩
+    simp only [dmFoldX, e]
+  cases op with
+  | gate1 g q =>
+    simp only [stepOp] at hs
+    split at hs
+    · next hq =>
+      simp only [dmStepH, if_pos hq] at hH
+      rw [← qIndex_tr] at hq hH
+      exact one _ _ (exec_gen1 np n nc det st _ hst g q.idx (regT q.ty) hq) hH
+    · cases hs
+  | pdag q =>
+    simp only [stepOp] at hs
+    split at hs
+    · next hq =>
+      simp only [dmStepH, if_pos hq] at hH
+      rw [← qIndex_tr] at hq hH
+      exact one _ _ (exec_sdg np n nc det st _ hst q.idx (regT q.ty) hq) hH
+    · cases hs
+  | cnot c t =>
+    simp only [stepOp] at hs
+    split at hs
+    · next hq =>
+      have hne : Graphiq.qIndex np c ≠ Graphiq.qIndex np t := hwf
+      simp only [dmStepH, if_pos hq, if_neg hne] at hH
+      rw [← qIndex_tr np c, ← qIndex_tr np t] at hq hH hne
+      exact one _ _ (exec_ctrl np n nc det st _ hst c.idx t.idx (regT c.ty) (regT t.ty) hq.1 hq.2 hne).1 hH
+    · cases hs
+  | cz c t =>
+    simp only [stepOp] at hs
+    split at hs
+    · next hq =>
+      have hne : Graphiq.qIndex np c ≠ Graphiq.qIndex np t := hwf
+      simp only [dmStepH, if_pos hq, if_neg hne] at hH
+      rw [← qIndex_tr np c, ← qIndex_tr np t] at hq hH hne
+      exact one _ _ (exec_ctrl np n nc det st _ hst c.idx t.idx (regT c.ty) (regT t.ty) hq.1 hq.2 hne).2 hH
+    · cases hs
+  | ccx c t creg =>
+    simp only [stepOp] at hs
+    split at hs
+    · next hq =>
+      simp only [dmStepH, if_pos hq] at hH
+      have hp := hpos _ hq.1
+      rw [← qIndex_tr np c, ← qIndex_tr np t] at hq hH
+      rw [← qIndex_tr np c] at hp
+      exact one _ _ (exec_classical np n nc det st _ hst c.idx t.idx (regT c.ty) (regT t.ty) creg hq.1 hq.2 hp).1 hH
+    · cases hs
+  | ccz c t creg =>
+    simp only [stepOp] at hs
+    split at hs
+    · next hq =>
+      simp only [dmStepH, if_pos hq] at hH
+      have hp := hpos _ hq.1
+      rw [← qIndex_tr np c, ← qIndex_tr np t] at hq hH
+      rw [← qIndex_tr np c] at hp
+      exact one _ _ (exec_classical np n nc det st _ hst c.idx t.idx (regT c.ty) (regT t.ty) creg hq.1 hq.2 hp).2.1 hH
+    · cases hs
+  | mcr c t creg =>
+    simp only [stepOp] at hs
+    split at hs
+    · next hq =>
+      simp only [dmStepH, if_pos hq] at hH
+      have hp := hpos _ hq.1
+      rw [← qIndex_tr np c, ← qIndex_tr np t] at hq hH
+      rw [← qIndex_tr np c] at hp
+      exact one _ _ (exec_classical np n nc det st _ hst c.idx t.idx (regT c.ty) (regT t.ty) creg hq.1 hq.2 hp).2.2 hH
+    · cases hs
+  | measz q creg =>
+    simp only [stepOp] at hs
+    split at hs
+    · next hq =>
+      simp only [dmStepH, if_pos hq] at hH
+      have hp := hpos _ hq
+      rw [← qIndex_tr np q] at hq hH hp
+      exact one _ _ (exec_measZ np n nc det st _ hst q.idx (regT q.ty) creg hq hp) hH
+    · cases hs
+  | wrap gs q =>
+    simp only [stepOp] at hs
+    split at hs
+    · next hq =>
+      simp only [dmStepH, if_pos hq] at hH
+      rw [← qIndex_tr np q] at hq hH
+      obtain ⟨st', e, r⟩ := exec_gen1_list np n nc det q.idx (regT q.ty) hq gs.reverse st _ hst
+      injection hH with hH
+      exact ⟨st', e, hH ▸ r⟩
+    · cases hs
+
+theorem trOps_cons (op : Graphiq.COp) (rest : List Graphiq.COp) : trOps (op :: rest) = trOp op ++ trOps rest := by
+  simp [trOps]
+
+theorem exec_fold (np n nc : Nat) (det : Bool) (ops : List Graphiq.COp) (hwf : ∀ op, op ∈ ops → op.WF np) :
+    ∀ (s s' : RunState) (st : Noise.DmSt), RunInv n s → RepSt n nc st (hstate n s) →
+      ops.foldlM (stepOp np n (detOf det)) s = some s' →
+      ∃ st', dmFoldX np n det (trOps ops) st = .ok st' ∧ RepSt n nc st' (hstate n s') := by
+  induction ops with
+  | nil =>
+    intro s s' st _ hst hs
+    simp only [List.foldlM] at hs
+    injection hs with hs
+    subst hs
+    exact ⟨st, rfl, hst⟩
+  | cons op rest ih =>
+    intro s s' st hinv hst hs
+    simp only [List.foldlM] at hs
+    cases h1 : stepOp np n (detOf det) s op with
+    | none => rw [h1] at hs; simp at hs
+    | some s1 =>
+      rw [h1] at hs
+      simp only [Option.bind_eq_bind, Option.bind_some] at hs
+      obtain ⟨st1, e1, r1⟩ := exec_op np n nc det s s1 op (hwf op List.mem_cons_self) hinv h1 st hst
+      obtain ⟨st2, e2, r2⟩ := ih (fun o ho => hwf o (List.mem_cons_of_mem _ ho)) s1 s' st1
+        (stepOp_inv np n (detOf det) s s1 op (hwf op List.mem_cons_self) hinv h1) r1 hs
+      refine ⟨st2, ?_, r2⟩
+      rw [trOps_cons, dmFoldX_append np n det _ _ st st1 e1]
+      exact e2
+
+/-- **The executable density-matrix model agrees with the stabilizer model.**  For every circuit, every register mix,
+    both forced settings (any script — forced runs never read it): if the stabilizer compile loop returns `s`, then
+    `compileDM` (noise simulation off) on the unwrapped circuit returns a matrix of size `2^(ne+np)` whose entry at the
+    numpy indices of the basis strings `a, b` is the entry `ρ(s.t) a b` of `∏ (1 + g_i)/2`, and the classical registers
+    are those written by `s`. -/
+theorem compileDM_eq_stab (ne np nc : Nat) (det : Bool) (script : List Bool) (ops : List Graphiq.COp)
+    (hwf : ∀ op, op ∈ ops → op.WF np) (s : RunState) (h : stabRun ne np (detOf det) script ops = some s) :
+    ∃ m, Noise.compileDM false ne np nc det (trOps ops) = .ok { ρ := some m, creg := regsOf nc s.writes } ∧
+      Rep (ne + np) m (rho (ne + np) (STab.ofTab s.t)) := by
+  unfold stabRun stabRunFrom at h
+  have hst0 : RepSt (ne + np) nc
+      { ρ := some (⟨DM.pow2 (ne + np), fun i j => if i = 0 ∧ j = 0 then 1 else 0⟩ : Mat).norm, creg := List.replicate nc 0 }
+      (hstate (ne + np) { t := Tab.ket0 (ne + np), writes := [], script := script, rand := [], outs := [] }) := by
+    refine ⟨_, rfl, ?_, rfl⟩
+    have := (rep_rho0 (ne + np)).norm
+    refine this.congr ?_
+    show ket0H (ne + np) = _
+    exact ket0H_eq (ne + np)
+  obtain ⟨st', e, m, hm, hrep, hc⟩ := exec_fold np (ne + np) nc det ops hwf _ s _
+    ⟨Tab.ket0_valid _, rfl, ket0_stabReal _⟩ hst0 h
+  refine ⟨m, ?_, hrep⟩
+  unfold Noise.compileDM
+  simp only
+  rw [dmGo_off np (ne + np) det (trOps ops).toArray (trOps ops) 0 _ (by intro i hi; simp [Array.getD, hi]), e]
+  cases st' with
+  | mk ρ' creg' =>
+    simp only at hm hc
+    rw [hm, hc]
+    rfl
+
 end DMX
 end Graphiq
